@@ -419,8 +419,12 @@ def ensure_built(ck, lean_targets=("tgdrive",)):
     """Rebuild harness and driver from the current tree; a failure breaks the tie."""
     ok, msg = regen_tables()
     if not ok:
-        ck.broke("translator", {"error": msg})
-        return False
+        # the tie is broken; keep going with the last tables that could be generated so that the search for a
+        # failing input on the implementation (and against the last good model) still runs
+        ck.broke("translator", {"error": msg, "note": "continuing the search with the previously generated tables"})
+        if not (os.path.exists(os.path.join(BUILD, "tables.json")) and os.path.exists(os.path.join(BUILD, "docgrammar.json"))
+                and os.path.exists(os.path.join(BUILD, "asttable.json"))):
+            return False
     ok, out = build_harness()
     if not ok:
         errs = [l for l in out.splitlines() if l.startswith("error")]
